@@ -185,7 +185,8 @@ Fixpoint frame_blocks (fuel : nat) (strict : bool) (fp : fparams) (h : H) (src :
       | BtRaw =>
           fail_if (andb strict (fp_blockMax fp <? bp_csize bp)) with Ecorruption;
           fail_if (cap <? bp_csize bp) with EdstSize_tooSmall;
-          MOk (b_raw h blk, blk)
+          (* an empty raw block leaves the block-decoder state alone (as ZSTD_decompressContinue's block-header stage does) *)
+          MOk ((if bp_csize bp =? 0 then h else b_raw h blk), blk)
       | BtRle =>
           fail_if (cap <? bp_orig bp) with EdstSize_tooSmall;
           MOk (b_rle h (nthN blk 0 0) (bp_orig bp), repeat_byte (nthN blk 0 0) (bp_orig bp))
@@ -390,7 +391,9 @@ Definition dcontinue (P : dparams) (c : cstate) (dstCap : N) (src : bytes) (srcS
       MOk (c_goto (c_set_fp P (c_set_hdr c hdr (c_hdrSize c)) fp) DDecodeBH BHS, [])
   | DDecodeBH =>
       let* bp := getc_block src in
-      fail_if (fp_blockMax (c_fp c) <? bp_csize bp) with Ecorruption;
+      (* an RLE block is 1 byte long whatever it regenerates: the limit applies to its regenerated size
+         (/repo fix for the zero-window RLE frame 28b52ffd 20 00 030000 41) *)
+      fail_if (fp_blockMax (c_fp c) <? (match bp_type bp with BtRle => bp_orig bp | _ => bp_csize bp end)) with Ecorruption;
       if negb (bp_csize bp =? 0) then
         MOk (c_set_block c (if bp_last bp then DLastBlock else DBlock) (bp_csize bp) (bp_type bp) (bp_orig bp), [])
       else if bp_last bp then
@@ -610,7 +613,14 @@ Definition iter_loadHeader (old : bool) (P : dparams) (inp0 : bytes) (l : lstate
         let lh' := z_lh z ++ l_in l in
         match get_fheader ml lh' with
         | HErr e => IErr e
-        | _ => IEarly (z_set_lh z lh') (N.max (hdr_min ml) hSize - lenN lh' + BHS)
+        | _ =>
+            (* return hint input size.  While the frame type is unknown (fewer than ZSTD_FRAMEIDSIZE bytes seen) or the
+               frame is skippable only the rest of the header is asked for: no block header follows a skippable header
+               and its content may be empty (/repo fix for the C10 hint overshoot) *)
+            IEarly (z_set_lh z lh')
+                   (if andb (negb ml) (orb (lenN lh' <? s_ZSTD_FRAMEIDSIZE) (is_skip_magic (le32 lh')))
+                    then hSize - lenN lh'
+                    else N.max (hdr_min ml) hSize - lenN lh' + BHS)
         end
       else ICont (l_adv l (z_set_lh z (z_lh z ++ tk toLoad (l_in l))) toLoad)
   | HDone fp => header_done old P inp0 l fp
@@ -664,11 +674,8 @@ Definition dstep_gen (old : bool) (P : dparams) (z : zstate) (inp : bytes) (osiz
       let ex' := (osize, opos + lenN (l_out l)) in
       let noprog := andb (consumed =? 0) (lenN (l_out l) =? 0) in
       let np := if noprog then z_noProgress z1 + 1 else 0 in
-      if andb noprog (NOPROGRESS_MAX <=? np) then
-        {| o_z := z_set_tail z1 (z_stage z1) (z_hostage z1) np ex'; o_consumed := 0; o_out := [];
-           o_ret := MErr (if l_ocap l =? 0 then EnoProgress_destFull
-                          else if lenN (l_in l) =? 0 then EnoProgress_inputEmpty else Eimpossible 5) |}
-      else
+      (* the code after the no-forward-progress test *)
+      let tail :=
         let c := z_c z1 in
         if c_expected c =? 0 then
           if z_outEnd z1 =? z_outStart z1 then
@@ -687,7 +694,17 @@ Definition dstep_gen (old : bool) (P : dparams) (z : zstate) (inp : bytes) (osiz
         else
           let hint := c_expected c + (if next_is_block c then BHS else 0) in
           {| o_z := z_set_tail z1 (z_stage z1) (z_hostage z1) np ex'; o_consumed := consumed; o_out := l_out l;
-             o_ret := if hint <? z_inPos z1 then MErr (Eimpossible 7) else MOk (hint - z_inPos z1) |}
+             o_ret := if hint <? z_inPos z1 then MErr (Eimpossible 7) else MOk (hint - z_inPos z1) |} in
+      if andb noprog (NOPROGRESS_MAX <=? np) then
+        if l_ocap l =? 0 then
+          {| o_z := z_set_tail z1 (z_stage z1) (z_hostage z1) np ex'; o_consumed := 0; o_out := []; o_ret := MErr EnoProgress_destFull |}
+        else if lenN (l_in l) =? 0 then
+          {| o_z := z_set_tail z1 (z_stage z1) (z_hostage z1) np ex'; o_consumed := 0; o_out := []; o_ret := MErr EnoProgress_inputEmpty |}
+        else
+          (* C: assert(0), a no-op in release builds: reachable when the call that could release the hostage byte comes after
+             ZSTD_NO_FORWARD_PROGRESS_MAX - 1 calls without input; the code then carries on *)
+          tail
+      else tail
   end.
 
 Definition dstep := dstep_gen false.          (* the current code *)
